@@ -1,14 +1,21 @@
 /-
-  Proofs/C03Effect.lean — P4 (effect) for globally declared transitions: what `_resolve_transition` exits and
-  enters is exactly what the statement of C03 prescribes (`C03.expectedExits`, `C03.expectedEnters`):
+  Proofs/C03Effect.lean — P4 (effect) for transitions declared in ANY scope (on the machine, or inside a state
+  definition): what `_resolve_transition` exits and enters is exactly what the statement of C03 prescribes
+  (`C03.expectedExits`, `C03.expectedEnters`) for the GLOBAL destination `sc.pre ++ dest`:
   the active states strictly below the deepest active proper ancestor of the destination — only the destination's
   branch when that ancestor has several active children — and then the rest of the destination path together with
   the initial descendants of the destination.
+  (`C03_exits_scoped`, `C03_enters_scoped`; `C03_exits_global`, `C03_enters_global` are the instances
+  `sc = cfg.root`.)  The destination of a transition declared inside a state is looked up in the sub-tree of that
+  state (`conf.reduceGet sc.pre`), so the root of the change is `sc.pre ++ rt` with `rt` the active proper prefix
+  of the relative destination; every prefix of `sc.pre` is active because the lookup of the scope succeeded.
 
   Helper lemmas live in the namespace `TM.Effect`:
     * `rt_dst`, `anchor_eq`     the root computed by the `while tmp_tree is not None` loop (`activePrefix`, re-rooted
                                 when the destination is fully active) is `C03.anchor`
-    * `resolve_inv`             inversion of a successful `resolveTransition` on the machine's scope
+    * `scoped_act`              activity of the prefixes of `sc.pre ++ dest` from those of `dest` inside the scope's tree
+    * `resolve_inv`             inversion of a successful `resolveTransition` in an arbitrary declaring scope,
+                                stated with global paths (root `A = sc.pre ++ rt`)
     * `liveKids_length`, `exits_sameSet`   the exit side
     * `relInit`, `Full`, `enterInitial_nodes`, `enterDest_nodes`, `initBelow_append`   the tree built by
                                 `_enter_nested` is the destination path followed by `C03.initBelow`
@@ -153,36 +160,67 @@ theorem enterRootEq : EnterRootEq := by
   rw [enterRoot_eq, walk_eq_walkTo]
   cases sc.walkTo rt <;> rfl
 
-/-- inversion of a successful `_resolve_transition` of a transition declared on the machine -/
-theorem resolve_inv (cfg : NCfg) (hwf : cfg.states.WF = true)
+/-- activity of the prefixes of the global destination `pre ++ dest`, from the activity of the prefixes of the
+scope-relative destination inside the sub-tree of the declaring scope -/
+theorem scoped_act {conf scT : Forest} {pre dest rt : SPath} (hsT : conf.sub? pre = some scT)
+    (hact : ∀ i, i < dest.length → ((scT.sub? (dest.take i)).isSome = true ↔ i ≤ rt.length)) :
+    ∀ i, i < (pre ++ dest).length →
+      ((conf.sub? ((pre ++ dest).take i)).isSome = true ↔ i ≤ (pre ++ rt).length) := by
+  intro i hi
+  simp only [List.length_append] at hi ⊢
+  by_cases hip : i ≤ pre.length
+  · have h1 : (pre ++ dest).take i = pre.take i := List.take_append_of_le_length hip
+    have h2 : (conf.sub? (pre.take i)).isSome = true := by
+      have := hsT
+      rw [← List.take_append_drop i pre, Forest.sub?_append] at this
+      cases h : conf.sub? (pre.take i) with
+      | none => simp [h] at this
+      | some _ => rfl
+    rw [h1, h2]
+    simp only [true_iff]; omega
+  · have h1 : (pre ++ dest).take i = pre ++ dest.take (i - pre.length) := by
+      rw [List.take_append, List.take_of_length_le (by omega)]
+    rw [h1, Forest.sub?_append, hsT, Option.bind_some, hact _ (by omega)]
+    omega
+
+/-- inversion of a successful `_resolve_transition` of a transition declared in the scope `sc` (the machine or a
+state definition): everything is stated with GLOBAL paths, `A` is the (global) root `scope + root` and
+`sc.pre ++ dest` the global destination -/
+theorem resolve_inv (cfg : NCfg) (hwf : cfg.states.WF = true) (sc : Scope) (hsc : cfg.root.walkTo sc.pre = some sc)
     (conf : Forest) (hc : ConfOK cfg.states conf = true) (hlen : conf.len = 1)
-    (dest : SPath) (r : Resolved) (h : resolveTransition cfg.root cfg.root conf dest = .ok r) :
-    ∃ (rt : SPath) (d0 : Nat) (dr : SPath) (st : Forest) (order : List SPath) (sc' : Scope) (T : Forest),
-      rt ++ d0 :: dr = dest ∧ rt.length < dest.length ∧
-      (∀ i, i < dest.length → ((conf.sub? (dest.take i)).isSome = true ↔ i ≤ rt.length)) ∧
-      conf.sub? rt = some st ∧
+    (dest : SPath) (r : Resolved) (h : resolveTransition cfg.root sc conf dest = .ok r) :
+    ∃ (A : SPath) (d0 : Nat) (dr : SPath) (st : Forest) (order : List SPath) (sc' : Scope) (T : Forest),
+      A ++ d0 :: dr = sc.pre ++ dest ∧ A.length < (sc.pre ++ dest).length ∧
+      (∀ i, i < (sc.pre ++ dest).length →
+        ((conf.sub? ((sc.pre ++ dest).take i)).isSome = true ↔ i ≤ A.length)) ∧
+      conf.sub? A = some st ∧
       order.Nodup ∧ (∀ q, q ∈ order ↔ q ∈ st.nodes ∧ (st.len > 1 → q.head? = some d0)) ∧
-      pathsOf r.exits = order.map (rt ++ ·) ∧
-      cfg.root.walkTo rt = some sc' ∧ enterDest sc' (d0 :: dr) = .ok (T, r.enters) := by
+      pathsOf r.exits = order.map (A ++ ·) ∧
+      cfg.root.walkTo A = some sc' ∧ enterDest sc' (d0 :: dr) = .ok (T, r.enters) := by
+  have _ := hlen
   have hdest : dest ≠ [] := by
     rintro rfl
     simp [resolveTransition, getState_nil] at h
-  have hpre0 : cfg.root.pre = [] := rfl
   simp only [resolveTransition] at h
   split at h
   · cases h
-  · generalize hdstE : (if (activePrefix conf dest).2.isEmpty = true then
-        (activePrefix conf dest).1.drop ((activePrefix conf dest).1.length - 1) else (activePrefix conf dest).2) = dst
+  · split at h
+    · cases h
+    · cases h
+    rename_i sT hsT
+    have hsT' : conf.sub? sc.pre = some sT := Forest.reduceGet_some.mp hsT
+    generalize hdstE : (if (activePrefix sT dest).2.isEmpty = true then
+        (activePrefix sT dest).1.drop ((activePrefix sT dest).1.length - 1) else (activePrefix sT dest).2) = dst
         at h
-    generalize hrtE : (if (activePrefix conf dest).2.isEmpty = true then
-        (activePrefix conf dest).1.dropLast else (activePrefix conf dest).1) = rt at h
-    obtain ⟨happ, hlt, hact⟩ := rt_dst conf dest hdest rt dst hrtE.symm hdstE.symm
+    generalize hrtE : (if (activePrefix sT dest).2.isEmpty = true then
+        (activePrefix sT dest).1.dropLast else (activePrefix sT dest).1) = rt at h
+    obtain ⟨happ, hlt, hact⟩ := rt_dst sT dest hdest rt dst hrtE.symm hdstE.symm
     have hdst : dst ≠ [] := by
       rintro rfl
       rw [List.append_nil] at happ
       rw [happ] at hlt; omega
     obtain ⟨d0, dr, rfl⟩ := List.exists_cons_of_ne_nil hdst
-    simp only [List.headD_cons, hpre0, List.nil_append] at h
+    simp only [List.headD_cons] at h
     split at h
     · cases h
     · cases h
@@ -196,14 +234,17 @@ theorem resolve_inv (cfg : NCfg) (hwf : cfg.states.WF = true)
         subst h
         dsimp only
         rw [enterRootEq] at hen
-        cases hw : cfg.root.walkTo rt with
+        cases hw : sc.walkTo rt with
         | none => simp [hw] at hen
         | some sc' =>
         simp only [hw] at hen
-        have hK : kidsAt cfg.states rt = some sc'.states := walkTo_kidsAt hw
+        have hA : cfg.root.walkTo (sc.pre ++ rt) = some sc' := by
+          rw [walkTo_append, hsc]; exact hw
+        have hK : kidsAt cfg.states (sc.pre ++ rt) = some sc'.states := walkTo_kidsAt hA
+        have hKr : kidsAt sc.states rt = some sc'.states := walkTo_kidsAt hw
         have hKwf : sc'.states.WF = true := WF_kidsAt hwf hK
         obtain ⟨v, rfl, hTok, -⟩ := enterDest_spec sc' hKwf d0 dr T ents hen
-        have hs : conf.sub? rt = some st := Forest.reduceGet_some.mp hred
+        have hs : conf.sub? (sc.pre ++ rt) = some st := Forest.reduceGet_some.mp hred
         obtain ⟨hst, hshape⟩ := ConfOK_sub hc hs hK
         have hcw : conf.WF = true := ConfOK_WF hc
         have hstw : st.WF = true := Forest.WF_sub hcw hs
@@ -211,7 +252,7 @@ theorem resolve_inv (cfg : NCfg) (hwf : cfg.states.WF = true)
           rw [ConfOK_cons_iff] at hTok
           obtain ⟨_, ⟨d, kids, hf, _⟩, _⟩ := hTok
           exact find_mem_names hf
-        have hAne : st.len > 1 → rt ≠ [] := by
+        have hAne : st.len > 1 → sc.pre ++ rt ≠ [] := by
           intro hn e
           rw [e] at hs
           simp only [Forest.sub?, Option.some.injEq] at hs
@@ -236,15 +277,15 @@ theorem resolve_inv (cfg : NCfg) (hwf : cfg.states.WF = true)
         have hordnd : order.Nodup := hperm.nodup_iff.mpr (Forest.nodes_nodup hES.1)
         have hmem : ∀ q, q ∈ order ↔ q ∈ st.nodes ∧ (st.len > 1 → q.head? = some d0) :=
           fun q => hperm.mem_iff.trans (hES.2 q)
-        have hX : pathsOf exits = order.map (rt ++ ·) := by
-          have := exitStates_paths (root := cfg.root) (sc := cfg.root) (rt := rt) (order := order)
-            (exits := exits) (fun p hp => ?_) hex
-          · simpa [hpre0] using this
-          · have hps := ((hmem p).mp hp).1
-            have hpne : p ≠ [] := fun e => Forest.nil_not_mem_nodes st (e ▸ hps)
-            rw [walk_append (sf := cfg.root.states) hK hpne]
-            exact ConfOK_walk hst hpne ((Forest.mem_nodes_iff hstw).mp hps).2
-        exact ⟨rt, d0, dr, st, order, sc', _, happ, hlt, hact, hs, hordnd, hmem, hX, hw, hen⟩
+        have hX : pathsOf exits = order.map ((sc.pre ++ rt) ++ ·) := by
+          refine exitStates_paths (fun p hp => ?_) hex
+          have hps := ((hmem p).mp hp).1
+          have hpne : p ≠ [] := fun e => Forest.nil_not_mem_nodes st (e ▸ hps)
+          rw [walk_append hKr hpne]
+          exact ConfOK_walk hst hpne ((Forest.mem_nodes_iff hstw).mp hps).2
+        refine ⟨sc.pre ++ rt, d0, dr, st, order, sc', _, ?_, ?_, scoped_act hsT' hact, hs, hordnd, hmem, hX, hA, hen⟩
+        · rw [List.append_assoc, happ]
+        · simp only [List.length_append]; omega
 
 
 
@@ -541,31 +582,34 @@ theorem mem_part1 {rt dst dest : SPath} (hd : rt ++ dst = dest) (p : SPath) :
 
 end Effect
 
-theorem C03_exits_global (cfg : NCfg) (hwf : cfg.states.WF = true)
+/-- P4 (exit side) for a transition declared in ANY scope (the machine or a state definition): with the
+scope-relative destination `dest`, the global destination is `sc.pre ++ dest` -/
+theorem C03_exits_scoped (cfg : NCfg) (hwf : cfg.states.WF = true) (sc : Scope) (hsc : cfg.root.walkTo sc.pre = some sc)
     (conf : Forest) (hc : ConfOK cfg.states conf = true) (hlen : conf.len = 1)
-    (dest : SPath) (r : Resolved) (h : resolveTransition cfg.root cfg.root conf dest = .ok r)
+    (dest : SPath) (r : Resolved) (h : resolveTransition cfg.root sc conf dest = .ok r)
     (live : List SPath) (hnd : live.Nodup) (hl : ∀ p, p ∈ live ↔ p ∈ conf.nodes) :
-    sameSet (pathsOf r.exits) (expectedExits live dest) = true := by
-  obtain ⟨rt, d0, dr, st, order, sc', T, happ, hlt, hact, hs, hordnd, hmem, hX, _, _⟩ :=
-    Effect.resolve_inv cfg hwf conf hc hlen dest r h
+    sameSet (pathsOf r.exits) (expectedExits live (sc.pre ++ dest)) = true := by
+  obtain ⟨A, d0, dr, st, order, sc', T, happ, hlt, hact, hs, hordnd, hmem, hX, _, _⟩ :=
+    Effect.resolve_inv cfg hwf sc hsc conf hc hlen dest r h
   have hcw : conf.WF = true := Change.ConfOK_WF hc
   have ha := Effect.anchor_eq hcw hl happ hlt hact
   rw [hX]
   exact Effect.exits_sameSet hcw hnd hl happ ha hs hordnd hmem
 
-theorem C03_enters_global (cfg : NCfg) (hwf : cfg.states.WF = true)
+/-- P4 (enter side) for a transition declared in ANY scope -/
+theorem C03_enters_scoped (cfg : NCfg) (hwf : cfg.states.WF = true) (sc : Scope) (hsc : cfg.root.walkTo sc.pre = some sc)
     (conf : Forest) (hc : ConfOK cfg.states conf = true) (hlen : conf.len = 1)
-    (dest : SPath) (r : Resolved) (h : resolveTransition cfg.root cfg.root conf dest = .ok r)
+    (dest : SPath) (r : Resolved) (h : resolveTransition cfg.root sc conf dest = .ok r)
     (live : List SPath) (hnd : live.Nodup) (hl : ∀ p, p ∈ live ↔ p ∈ conf.nodes) :
-    sameSet (pathsOf r.enters) (expectedEnters cfg live dest) = true := by
+    sameSet (pathsOf r.enters) (expectedEnters cfg live (sc.pre ++ dest)) = true := by
   have _ := hnd
-  obtain ⟨rt, d0, dr, st, order, sc', T, happ, hlt, hact, _, _, _, _, hw, hen⟩ :=
-    Effect.resolve_inv cfg hwf conf hc hlen dest r h
+  obtain ⟨A, d0, dr, st, order, sc', T, happ, hlt, hact, _, _, _, _, hw, hen⟩ :=
+    Effect.resolve_inv cfg hwf sc hsc conf hc hlen dest r h
   have hcw : conf.WF = true := Change.ConfOK_WF hc
   have ha := Effect.anchor_eq hcw hl happ hlt hact
-  have hK : Change.kidsAt cfg.states rt = some sc'.states := Change.walkTo_kidsAt hw
+  have hK : Change.kidsAt cfg.states A = some sc'.states := Change.walkTo_kidsAt hw
   have hKwf : sc'.states.WF = true := Change.WF_kidsAt hwf hK
-  have hpre : sc'.pre = rt := by
+  have hpre : sc'.pre = A := by
     have := Change.walkTo_pre hw
     simpa [NCfg.root] using this
   obtain ⟨v, _, hTok, hNnd, hNmem, -, -⟩ := enterDest_spec sc' hKwf d0 dr T r.enters hen
@@ -574,13 +618,13 @@ theorem C03_enters_global (cfg : NCfg) (hwf : cfg.states.WF = true)
   rw [hnodes] at hTnd hNmem
   rw [hpre] at hNmem
   obtain ⟨_, hnd2, hdisj⟩ := List.nodup_append.mp hTnd
-  have hib : initBelow cfg.states dest = (initBelow sc'.states (d0 :: dr)).map (rt ++ ·) := by
+  have hib : initBelow cfg.states (sc.pre ++ dest) = (initBelow sc'.states (d0 :: dr)).map (A ++ ·) := by
     rw [← happ]; exact Effect.initBelow_append hK (by simp)
   unfold expectedEnters
   simp only [ha, hib]
   apply Effect.sameSet_of_nodup hNnd
   · rw [List.nodup_append]
-    refine ⟨Effect.part1_nodup dest rt.length,
+    refine ⟨Effect.part1_nodup (sc.pre ++ dest) A.length,
       Enter.nodup_map_inj (fun a b e => by simpa using e) hnd2, ?_⟩
     intro a ha' b hb e
     subst e
@@ -601,5 +645,20 @@ theorem C03_enters_global (cfg : NCfg) (hwf : cfg.states.WF = true)
     · rintro (⟨q, hq, rfl⟩ | ⟨q, hq, rfl⟩)
       · exact ⟨q, Or.inl hq, rfl⟩
       · exact ⟨q, Or.inr hq, rfl⟩
+
+/-- the machine's own scope: `sc = cfg.root`, `sc.pre = []` -/
+theorem C03_exits_global (cfg : NCfg) (hwf : cfg.states.WF = true)
+    (conf : Forest) (hc : ConfOK cfg.states conf = true) (hlen : conf.len = 1)
+    (dest : SPath) (r : Resolved) (h : resolveTransition cfg.root cfg.root conf dest = .ok r)
+    (live : List SPath) (hnd : live.Nodup) (hl : ∀ p, p ∈ live ↔ p ∈ conf.nodes) :
+    sameSet (pathsOf r.exits) (expectedExits live dest) = true :=
+  C03_exits_scoped cfg hwf cfg.root rfl conf hc hlen dest r h live hnd hl
+
+theorem C03_enters_global (cfg : NCfg) (hwf : cfg.states.WF = true)
+    (conf : Forest) (hc : ConfOK cfg.states conf = true) (hlen : conf.len = 1)
+    (dest : SPath) (r : Resolved) (h : resolveTransition cfg.root cfg.root conf dest = .ok r)
+    (live : List SPath) (hnd : live.Nodup) (hl : ∀ p, p ∈ live ↔ p ∈ conf.nodes) :
+    sameSet (pathsOf r.enters) (expectedEnters cfg live dest) = true :=
+  C03_enters_scoped cfg hwf cfg.root rfl conf hc hlen dest r h live hnd hl
 
 end TM
